@@ -102,6 +102,36 @@ func NPMRange(r *rand.Rand) string {
 	return strings.Join(alts, Pick(r, " || ", "||", " ||"))
 }
 
+// SameLower wraps a range generator: one string in eight is an AND-pair of
+// two ranges that start at the same version, one of them written with a
+// prerelease (">=2.0.0 >=2.0.0-0", "^2 2.x-rc", "* >=0.0.0-0"), in either
+// order. and is the conjunction separator (" " for npm, ", " for Cargo).
+func SameLower(g func(*rand.Rand) string, and string) func(*rand.Rand) string {
+	return func(r *rand.Rand) string {
+		if r.Intn(8) != 0 {
+			return g(r)
+		}
+		n, m := sn(r), sn(r)
+		pre := Pick(r, "0", "rc", "alpha.1", "beta")
+		var a, b string
+		switch r.Intn(4) {
+		case 0:
+			a, b = Pick(r, "*", ">=0.0.0", "<=*"), ">=0.0.0-"+pre
+		case 1:
+			a, b = Pick(r, "^"+n, n+".x", n, ">="+n+".0.0", "~"+n), Pick(r, n+".x-"+pre, n+".*-"+pre, ">="+n+".0.0-"+pre)
+		case 2:
+			a, b = Pick(r, "^"+n+"."+m, n+"."+m+".x", "~"+n+"."+m, ">="+n+"."+m+".0"), Pick(r, n+"."+m+".x-"+pre, ">="+n+"."+m+".0-"+pre, "~"+n+"."+m+".0-"+pre)
+		default:
+			v := SemFull(r, false)
+			a, b = ">="+v, Pick(r, ">=", "^", "~")+v+"-"+pre
+		}
+		if r.Intn(2) == 0 {
+			a, b = b, a
+		}
+		return a + and + b
+	}
+}
+
 func cargoPartial(r *rand.Rand) string {
 	switch k := r.Intn(20); {
 	case k < 9:
